@@ -1,32 +1,6 @@
-p='/verif/DESIGN.md'
+p='/verif/tools/mkmanifest.py'
 s=open(p).read()
-old=s[s.index("| C13 (requesters must be BEP42-secure) | - | **not a violation any more**"):s.index("### A.6 Trusted base as built")]
-new='''| C13 (requesters must be BEP42-secure) | - | **not a violation any more** | written against the tree before the F7 repair, where nodes never re-keyed; on the current tree every reachable joiner confirms its address and re-keys to a valid id, its second bootstrap lookup is then accepted: the public-plan cases (added for it) pass with the patch applied, and so does the property. Not stored under seeded/. |
-| C01-put-lookup-drops-salt | C01 | missed | all four data kinds + put and get of one key in the same instant: failing input |
-
-Second round (same procedure, prompts steering away from the first round's idea; eleven properties):
-
-| seed | caught by | first run | after strengthening |
-|---|---|---|---|
-| C07-stop-visiting-after-immutable-value | C07 | missed | value-bearing lookups + a hook keeping the final state of a finished lookup: failing input |
-| C18-port-only-vote-change-ignored | C18 | failing input | |
-| C14-bootstrap-entries-never-evicted | C14 | failing input | |
-| C01-recv-buffer-1500 | C01 | missed | 1000-byte values: failing input |
-| C13-signed-table-latches-only-while-small | C13 | missed | 48..128-node networks with the connectivity verdict: failing input |
-| C06-return-instead-of-continue-in-start-put-queries | C06 | failing input | |
-| C08-write-to-nodes-without-token | C08 | missed | token-less extra nodes: failing input |
-| C09-partition-point-without-equality | C09 | failing input | |
-| C20-immutable-reput-not-promoted | C20, C03 | missed | store histories under C20, least-recently-used discipline in the predicate: failing input |
-| C02-unsalted-signature-accepted-for-salted-lookup | C02 (C04 for the server half) | failing input | cross-salt replays with a consistent target added to the store histories |
-| C05-size-estimate-plus-one-overflows | C05 | missed (C11: broken correspondence only) | sybil-answer node scenarios, API calls under catch_unwind: failing input |
-
-Across both rounds 15 of 31 seeded changes were reported with a failing input by the checks as they stood, 4 more as a broken
-correspondence only, 11 were missed and one turned out not to violate the property any more; every miss led to a
-strengthening of a generator or predicate (never to a loosened one), after which the change is reported with a failing
-input. The sub-agents' notes on oddities of the *unchanged* code led to F24 and F25 and confirmed F6, F21, F23.
-
-'''
-s=s.replace(old,new)
-s=s.replace("| C01-put-lookup-drops-salt | C01 | missed | all four data kinds + put and get of one key in the same instant: failing input |\n| C01-put-lookup-drops-salt","| C01-put-lookup-drops-salt")
+s=s.replace("counts never underflow, the cache holds at most 1000 lookups and one per target. Tied to the code","counts never underflow, the cache holds at most 1000 lookups and one per target; and over the storing node's model: under every history of requests the info-hash tables, every per-info-hash peer table, the immutable and the mutable store stay within their capacities, a write refreshes its key or evicts exactly the least recently used entry, a read hit promotes. Tied to the code")
+s=s.replace("store capacities are checked per request in the C03 histories.","the store histories of C03 (incl. histories of repeated immutable puts under capacities 2 and 3) run under this check as well: capacities after every request, and the least-recently-used discipline on the node's own dumps (what was just written or read is the most recently used entry, only the least recently used one goes).")
 open(p,'w').write(s)
 print('ok')
